@@ -86,18 +86,25 @@ Event(e) ==
     \/ e.k = "recv" /\ KF_F7_UnlinkedBodyDropped(e)
     \/ e.k = "wire_out" /\ \/ \E s \in Srcs : out[s] # <<>> /\ Head(out[s]) = e.msg /\ Mux(s)
                            \/ sys # <<>> /\ Head(sys) = e.msg /\ MuxSys
-    \/ e.k = "settle" /\ SettleOK /\ UNCHANGED vars
+    \* (IF: the guard is evaluated as a plain expression - as an action conjunct TLC would branch on
+    \*  every disjunction under the quantifier and produce 2^n copies of the same successor)
+    \/ e.k = "settle" /\ (IF SettleOK THEN UNCHANGED vars ELSE FALSE)
     \/ e.k = "ws_closed" /\ closed /\ UNCHANGED vars
     \* the task ends / an attachment is refused only because an invalid frame terminated the task
     \/ e.k = "task_end" /\ e.panic = FALSE /\ closed /\ UNCHANGED vars
     \/ e.k = "attach_failed" /\ closed /\ dl[e.d].st = "req" /\ UNCHANGED vars
 
-\* steps the harness cannot observe
-Hidden == RegIn \/ RegOut \/ Route \/ \E s \in Srcs : MuxEnd(s)
+\* Steps the harness cannot observe.  The search is kept polynomial by fixing the order of hidden
+\* steps that commute with everything observable: the outgoing half registers a reader at once
+\* (RegOut only enables Mux / AttachDone, and a downlink writes only after AttachDone), and the
+\* removal of a drained source from the multiplexer (MuxEnd) is not tracked at all.  What remains
+\* free is what matters: when a frame is routed relative to registrations, detachments, stops.
+Hidden == RegIn \/ Route
 
 TraceNext ==
-    \/ /\ i <= Len(Rec) /\ Event(Rec[i]) /\ i' = i + 1 /\ TLCSet(1, Max(TLCGet(1), i + 1))
-    \/ /\ i <= Len(Rec) /\ Hidden /\ i' = i
+    IF ~closed /\ pendOut # <<>> THEN RegOut /\ i' = i
+    ELSE \/ /\ i <= Len(Rec) /\ Event(Rec[i]) /\ i' = i + 1 /\ TLCSet(1, Max(TLCGet(1), i + 1))
+         \/ /\ i <= Len(Rec) /\ Hidden /\ i' = i
 
 TraceSpec == TraceInit /\ [][TraceNext]_tvars
 
